@@ -150,6 +150,13 @@ func gen(t *rapid.T) Case {
 		pos := rapid.IntRange(0, len(steps)).Draw(t, "cancelPos")
 		steps = insertStep(steps, pos, Step{Op: "cancel"})
 	}
+	// a node's server is stopped at a generated position: before it answered (it then counts as a
+	// node that failed), or after it answered (a plain call must not hear of the node twice)
+	if rapid.IntRange(0, 3).Draw(t, "doStop") == 0 {
+		s := rapid.SampledFrom(targets).Draw(t, "stopNode")
+		pos := rapid.IntRange(0, len(steps)).Draw(t, "stopPos")
+		steps = insertStep(steps, pos, Step{Op: "stop", Node: s})
+	}
 	c.Steps = steps
 	return c
 }
@@ -328,6 +335,7 @@ func run(c Case) vt.Verdict {
 	nextGate := map[int]int{} // stream: next gate index per node
 	answeredReplies := 0      // replies that have been released so far (each causes one quorum-function invocation while the call is live)
 	exitsExpected := map[int]bool{}
+	stopped := map[int]bool{} // servers stopped by a step: the node has failed (if it had not answered before)
 	lastLevel := gorums.LevelNotSet
 	nonMonotone := false
 	ctxBetween := false
@@ -463,7 +471,7 @@ func run(c Case) vt.Verdict {
 		all := true
 		for _, s := range call.Targets {
 			e, ok := exits[s]
-			if !ok || (stream && e.ErrCode == 0) {
+			if (!ok || (stream && e.ErrCode == 0)) && !stopped[s] {
 				all = false
 			}
 		}
@@ -497,8 +505,18 @@ func run(c Case) vt.Verdict {
 					return fail(k("never-completes/"+sig), "the correctable did not complete after its context was cancelled: %s", sig)
 				}
 			}
+		case "stop":
+			if stopped[st.Node] {
+				continue
+			}
+			stopped[st.Node] = true
+			cl.Stop(st.Node)
+			time.Sleep(300 * time.Microsecond) // a connection failure has no observable arrival; check polls
 		case "answer":
 			s := st.Node
+			if stopped[s] {
+				continue // the server is gone: nothing can be released any more
+			}
 			ns := c.Nodes[s]
 			isReply := false
 			if stream {
@@ -591,7 +609,7 @@ func run(c Case) vt.Verdict {
 			legitOpen := false
 			if stream {
 				for _, s := range call.Targets {
-					if c.Nodes[s].Kind != "error" {
+					if c.Nodes[s].Kind != "error" && !stopped[s] {
 						legitOpen = true
 					}
 				}
